@@ -55,3 +55,31 @@ package blockresults
 //@   site call rr.ProcessReduceForEval #1:
 //@     assert [incoming-slot-synced-before-it-is-read] implies(arg3 == i, ghost(0, "mrsSynced") == i + 1)
 //@ end
+
+// C04 (each reported aggregate equals the true aggregate of its group): the
+// measures of a group-by are laid out in reverseMeasureIndex, one entry per
+// internal slot; a measure occupies two slots when it is computed from a pair
+// of internal statistics (range without eval: min and max; earliest/latest
+// without eval: value and timestamp; avg without eval under timechart: sum and
+// count) and one otherwise.  updateEValFromRunningBuckets reads measure after
+// measure through the shared cursor *idxPtr, so on EVERY return — the ones
+// that report an invalid value for this group included — it must leave the
+// cursor on the first slot of the next measure.
+//@ spec slotsOfMeasure(m *structs.MeasureAggregator, tc bool) int = ite(m.ValueColRequest == nil && (m.MeasureFunc == sutils.Range || m.MeasureFunc == sutils.Earliest || m.MeasureFunc == sutils.Latest || (m.MeasureFunc == sutils.Avg && tc)), 2, 1)
+//@ func (*GroupByBuckets).updateEValFromRunningBuckets
+//@   props C04
+//@   assumecalleerequires
+//@   privateparam idxPtr
+//@   abstractfloatdiv
+//@   requires idxPtr != nil && mInfo != nil
+//@   ensures [cursor-advanced-past-all-slots-of-the-measure] implies(hllToMerge != nil && strSetToMerge != nil, *idxPtr == old(*idxPtr) + old(slotsOfMeasure(mInfo, usedByTimechart)))
+//@   note index and nil-dereference safety of the running-stat reads is not claimed here (safe is not set); the calls' own preconditions are assumed
+//@ end
+
+// brings the cached raw value of one running statistic up to date: writes the
+// statistic's own fields and its raw-value enclosure only (frame ASSUMED; the
+// number-to-value conversion is outside the verified slice)
+//@ func (*runningStats).syncRawValue
+//@   assumed
+//@   modifies fieldsof(runningStats), fieldsof(sutils.CValueEnclosure)
+//@ end
